@@ -108,9 +108,13 @@ def run_schedules(ck, exe, configs, validate=True):
     by_len = sorted(mlines, key=len)
     pick = by_len[:100 if ck.tier == "thorough" else 60] + by_len[-4:]
     srcm = wv.run_lines([mdrv, "src"], pick, shards=wv.NCPU, env=env) if pick else {}
+    # ... and the executable simulation relation (RefineConcSim.simb: PipeConc state <-> machine state of the translated protocol:
+    # program points, buffers, counters, stream positions, held mutexes) evaluated after every step of the same schedules
+    simr = wv.run_lines([mdrv, "src"], [l.replace(" conc ", " simrun ", 1) for l in pick[:40 if ck.tier == "thorough" else 24]], shards=wv.NCPU, env=env) if pick else {}
     for r in res:
         r["model"] = model.get("m%d" % r["i"])
         r["srcmodel"] = srcm.get("m%d" % r["i"])
+        r["sim"] = simr.get("m%d" % r["i"])
     return res
 
 
